@@ -248,4 +248,12 @@ var Controls = []Control{
 	{"C11", "pkg/errors stack layer sends at most 32 frames", "errbase/adapters.go", `\tsafeDetails := \[\]string\{fmt\.Sprintf\("%\+v", iErr\.StackTrace\(\)\)\}\n\treturn "" /\* withStack`, "\tst := iErr.StackTrace()\n\tif len(st) > 32 {\n\t\tst = st[:32]\n\t}\n\tsafeDetails := []string{fmt.Sprintf(\"%+v\", st)}\n\treturn \"\" /* withStack", "R-STACK-WHOLE"},
 	{"C11", "OS predicate compares the sentinel by identity", "oserror/oserror.go", `if errors\.Is\(err, ErrExist\) \|\| os\.IsExist`, "if errors.UnwrapAll(err) == ErrExist || os.IsExist", "R-OS-PREDICATE"},
 	{"C09", "multi-cause Formatter keeps its branches' texts", "errbase/format_error.go", `\t\tif len\(causes\) > 0 \{\n\t\t\ts\.elideShortChildren\(numChildren\)\n\t\t\}\n\n\tdefault:`, "\n\tdefault:", "R-ELIDE"},
+	// round 8
+	{"C07", "empty replacement message falls back to the message-keeping barrier", "domains/domains.go", `func HandledInDomainWithMessage\(err error, domain Domain, msg string\) error \{\n`, "func HandledInDomainWithMessage(err error, domain Domain, msg string) error {\n\tif msg == \"\" {\n\t\treturn HandledInDomain(err, domain)\n\t}\n", "R-ARG-USED"},
+	{"C06", "Formattable hands out errors that format themselves", "errbase/format_error.go", `func Formattable\(err error\) fmt\.Formatter \{\n`, "func Formattable(err error) fmt.Formatter {\n\tif f, ok := err.(fmt.Formatter); ok {\n\t\tif _, isSafe := err.(SafeFormatter); isSafe {\n\t\t\treturn f\n\t\t}\n\t}\n", "R-FORMATTABLE"},
+	{"C05", "status decoder asserts the result of a declining decoder", "extgrpc/ext_grpc.go", `return grpcstatus\.Convert\(decodeGoGoStatus\(ctx, msg, details, payload\)\)\.Err\(\)`, "return decodeGoGoStatus(ctx, msg, details, payload).(interface{ GRPCStatus() *grpcstatus.Status }).GRPCStatus().Err()", "R-ASSERT-NIL"},
+	{"C02", "generic leaf message sanitised before it travels", "errbase/encode.go", `\t\t\tmsg = err\.Error\(\)\n`, "\t\t\tmsg = strings.ToValidUTF8(err.Error(), \"?\")\n", "R-GENERIC-MSG"},
+	{"C13", "join keeps only arguments with a text", "join/join.go", `\t\tif err != nil \{\n\t\t\te\.errs = append\(e\.errs, err\)`, "\t\tif err != nil && err.Error() != \"\" {\n\t\t\te.errs = append(e.errs, err)", "R-JOIN-FILTER"},
+	{"C15", "report visitor skips empty multi-cause nodes", "report/report.go", `func visitAllMulti\(err error, f func\(error\)\) \{\n\tf\(err\)`, "func visitAllMulti(err error, f func(error)) {\n\tif _, isMulti := err.(interface{ Unwrap() []error }); isMulti && len(errbase.UnwrapMulti(err)) == 0 {\n\t\treturn\n\t}\n\tf(err)", "R-VISIT-ALL"},
+	{"C03", "report tagged with the error text", "report/report.go", `\tfor key, value := range tags \{`, "\ttags[\"message\"] = err.Error()\n\tfor key, value := range tags {", "R-TAINT"},
 }
